@@ -1280,6 +1280,16 @@ def ord7_smallest_snapshot(P, R, L, rule="ORD-7"):
         hn = {c.name.rsplit("::", 1)[1] for c in sn.calls() if "linked_list" in (c.name or "")}
         R.check(rule, "snapshots::SnapshotList|oldest-vs-newest", ho != hn and bool(ho) and bool(hn), where(so),
                 "oldest() and newest() read opposite ends of the snapshot list", "oldest uses %s, newest uses %s" % (sorted(ho), sorted(hn)))
+        # snapshots are taken with non-decreasing sequence numbers and appended at the end `oldest()` does not read
+        ns = P.body("snapshots::SnapshotList::new_snapshot")
+        if ns is None:
+            R.missing_anchor(rule, "snapshots::SnapshotList::new_snapshot")
+        else:
+            R.analysed(ns)
+            ps = {c.name.rsplit("::", 1)[1] for c in ns.calls() if "linked_list" in (c.name or "") and "push" in (c.name or "")}
+            pair_ok = (ps <= {"push", "push_node"} and ho == {"head"}) or (ps <= {"push_front", "push_node_front"} and ho == {"tail"})
+            R.check(rule, "snapshots::SnapshotList|append-end-vs-oldest-end", bool(ps) and pair_ok, where(ns),
+                    "new snapshots are appended at the end opposite to the one oldest() reads", "new_snapshot uses %s, oldest uses %s" % (sorted(ps), sorted(ho)))
 
 
 # ------------------------------------------------------------------------------------------- TS-1 / GRD-6 / ORD-14 / OWN-5 / COV-1
@@ -2992,3 +3002,259 @@ def ts2_writer_fragment_types(P, R, L, rule="TS-2"):
                 det.append("bb%d: chunk := %s without the guard that it is the smaller one" % (bb0, "remaining" if src_is_len else "room"))
     R.check(rule, fn + "|chunk-is-min-of-remaining-and-room", ok, where(b),
             "the chunk length is the remaining length only where remaining <= room, and the room only where room <= remaining", "; ".join(det))
+
+
+# ------------------------------------------------------------------------------------------- KEY-1 internal key order
+def key1_internal_key_order(P, R, L, rule="KEY-1"):
+    """Everything that finds 'the newest entry at or below a sequence' relies on the order of InternalKey: user key
+    ascending (self vs other), then sequence number DESCENDING (other vs self), decided by the user key whenever the
+    user keys differ; partial_cmp delegates to cmp; eq looks at user key and sequence number."""
+    fn = "<key::InternalKey as std::cmp::Ord>::cmp"
+    b = P.body(fn)
+    if b is None:
+        return R.missing_anchor(rule, fn)
+    R.analysed(b)
+
+    def side(op, fld, body=None):
+        body = body or b
+        os_ = origins(body, op)
+        ps = set()
+        for o in os_:
+            if o.kind == "param" and fld in o.path and body is b:
+                ps.add(o.name)
+            elif o.kind == "upvar" and fld in o.path:
+                for po in upvar_parent_origins(P, body, o.name):
+                    if po.kind == "param":
+                        ps.add(po.name)
+            else:
+                return None
+        return ps.pop() if len(ps) == 1 else None
+    is_cmp = lambda c: (c.declared_name or "") in ("std::cmp::Ord::cmp", "std::cmp::PartialOrd::partial_cmp") and len(c.args) == 2
+    cmps = [c for c in b.calls() if not b.is_cleanup(c.bb) and is_cmp(c)]
+    uk = [c for c in cmps if side(c.args[0], "user_key") and side(c.args[1], "user_key")]
+    sq = [c for c in cmps if side(c.args[0], "sequence_number") and side(c.args[1], "sequence_number")]
+    # `.then_with(|| other.seq.cmp(&self.seq))`: the tie-break lives in a closure handed to Ordering::then_with
+    chained_sq = []
+    for c in b.calls():
+        if not b.is_cleanup(c.bb) and (c.name or "").endswith("Ordering::then_with") and len(c.args) == 2:
+            for cp in b.closure_of_operand(c.args[1]):
+                cb = P.bodies.get(cp)
+                if cb is not None:
+                    R.analysed(cb)
+                    for cc in cb.calls():
+                        if not cb.is_cleanup(cc.bb) and is_cmp(cc):
+                            sides = (side(cc.args[0], "sequence_number", cb), side(cc.args[1], "sequence_number", cb))
+                            if all(sides):
+                                chained_sq.append(sides)
+    ok_u = bool(uk) and all((side(c.args[0], "user_key"), side(c.args[1], "user_key")) == (1, 2) for c in uk)
+    ok_s = (bool(sq) or bool(chained_sq)) and all((side(c.args[0], "sequence_number"), side(c.args[1], "sequence_number")) == (2, 1) for c in sq) \
+        and all(x == (2, 1) for x in chained_sq)
+    R.check(rule, fn + "|user-key-ascending", ok_u, where(b), "user keys are compared as (self, other)", "sites %d" % len(uk))
+    R.check(rule, fn + "|sequence-descending", ok_s, where(b), "sequence numbers are compared as (other, self): newer entries of a user key sort first", "sites %d" % len(sq))
+    # the sequence decides only where the user keys are equal
+    ne_eq = []
+    is_self_uk = lambda os_: any(o.kind == "param" and o.name == 1 and "user_key" in o.path for o in os_)
+    is_oth_uk = lambda os_: any(o.kind == "param" and o.name == 2 and "user_key" in o.path for o in os_)
+    for c in comparisons(b):
+        ne_eq += c.edges_where("eq", is_self_uk, is_oth_uk, exact=True)
+    # alternatively: the result of the user-key cmp is tested for Equal (match / then_with): accept `then`/`then_with` chains
+    chained = [c for c in b.calls() if not b.is_cleanup(c.bb) and (c.name or "").endswith(("Ordering::then", "Ordering::then_with"))]
+    if ne_eq:
+        ok_g = bool(sq) and all(b.must_pass(c.bb, through_edges=ne_eq) for c in sq)
+    elif chained_sq:
+        ok_g = not sq       # then_with evaluates the closure only for Ordering::Equal
+    else:
+        # `match self.user_key.cmp(..) { Equal => seq cmp, ord => ord }`: the sequence cmp lies behind the Equal edge of a
+        # switch on the discriminant of the user-key ordering
+        ok_g = False
+        eq_edges = []
+        for u in uk:
+            for bb in range(b.n):
+                for st in b.blocks[bb]["stmts"]:
+                    if st["k"] == "assign" and st["rv"]["k"] == "discr" and u.dest["l"] in roots(b, {"k": "copy", "pl": st["rv"]["pl"]}):
+                        from ..rules import _switches_on_local, switch_target
+                        for sb in _switches_on_local(b, st["pl"]["l"]):
+                            eq_edges.append((sb, switch_target(b.term(sb), 0)))      # Ordering::Equal = 0
+        if eq_edges:
+            ok_g = bool(sq) and all(b.must_pass(c.bb, through_edges=eq_edges) for c in sq)
+    R.check(rule, fn + "|sequence-only-breaks-ties", ok_g, where(b), "the sequence comparison decides only on the edge where the user keys are equal", "equal-user-key edges %d, chained %d" % (len(ne_eq), len(chained)))
+    pc = P.body("<key::InternalKey as std::cmp::PartialOrd>::partial_cmp")
+    if pc is None:
+        R.missing_anchor(rule, "<key::InternalKey as std::cmp::PartialOrd>::partial_cmp")
+    else:
+        R.analysed(pc)
+        d = [c for c in pc.calls() if not pc.is_cleanup(c.bb) and c.name == fn]
+        okp = bool(d) and all(any(o.kind == "param" and o.name == 1 for o in origins(pc, c.args[0])) and any(o.kind == "param" and o.name == 2 for o in origins(pc, c.args[1])) for c in d)
+        R.check(rule, pc.path + "|delegates-to-cmp", okp, where(pc), "partial_cmp is Some(self.cmp(other))", "delegating sites %d" % len(d))
+    # the seek key for (user key, sequence) is built from exactly these two values
+    nf = P.body("key::InternalKey::new_for_seeking")
+    if nf is not None:
+        R.analysed(nf)
+        okn = False
+        for bb in range(nf.n):
+            for st in nf.blocks[bb]["stmts"]:
+                if st["k"] == "assign" and st["rv"]["k"] == "aggregate" and (st["rv"].get("adt") or "").endswith("key::InternalKey"):
+                    fs = st["rv"]["fields"]
+                    okn = any(o.kind == "param" and o.name == 1 for o in origins(nf, st["rv"]["ops"][fs.index("user_key")])) and \
+                        any(o.kind == "param" and o.name == 2 for o in origins(nf, st["rv"]["ops"][fs.index("sequence_number")]))
+        R.check(rule, nf.path + "|fields", okn, where(nf), "a seek key carries the given user key and sequence number", "")
+
+
+# ------------------------------------------------------------------------------------------- ROLE-5 version builder merge
+VB = "versioning::version_builder::VersionBuilder"
+FM_CMP = "<versioning::file_metadata::FileMetadataBySmallestKey as utils::comparator::Comparator<&versioning::file_metadata::FileMetadata>>::compare"
+
+
+def role5_version_builder(P, R, L, rule="ROLE-5"):
+    """The file list of every level of a new version is produced by VersionBuilder: files are ordered by smallest key
+    (ties by file number), the merge of base and added files emits the smaller one first, a file is kept unless its
+    number is in the deleted set of the same level, and the edit's deletions / additions are accumulated per level."""
+    cmpb = P.body(FM_CMP)
+    if cmpb is None:
+        R.missing_anchor(rule, FM_CMP)
+    else:
+        R.analysed(cmpb)
+        ks = [c for c in cmpb.calls() if not cmpb.is_cleanup(c.bb) and (c.declared_name or "") == "std::cmp::Ord::cmp" and len(c.args) == 2]
+
+        def via(op, getter):
+            for o in origins(cmpb, op):
+                if o.kind == "call" and (o.name or "").endswith(getter) and o.site is not None:
+                    ps = {x.name for x in origins(cmpb, o.site.args[0]) if x.kind == "param"}
+                    if len(ps) == 1:
+                        return ps.pop()
+            return None
+        sk = [c for c in ks if via(c.args[0], "::smallest_key") and via(c.args[1], "::smallest_key")]
+        fnum = [c for c in ks if via(c.args[0], "::file_number") and via(c.args[1], "::file_number")]
+        ok = bool(sk) and all((via(c.args[0], "::smallest_key"), via(c.args[1], "::smallest_key")) == (1, 2) for c in sk) and \
+            all((via(c.args[0], "::file_number"), via(c.args[1], "::file_number")) == (1, 2) for c in fnum) and \
+            not [c for c in ks if via(c.args[0], "::largest_key") or via(c.args[1], "::largest_key")]
+        R.check(rule, FM_CMP + "|orders-by-smallest-key", ok, where(cmpb), "files are ordered by (smallest key, file number) ascending, (a, b) order",
+                "smallest-key comparisons %d, file-number comparisons %d" % (len(sk), len(fnum)))
+    ac = P.body(VB + "::apply_changes")
+    if ac is None:
+        R.missing_anchor(rule, VB + "::apply_changes")
+    else:
+        R.analysed(ac)
+        adds = [c for c in ac.calls() if not ac.is_cleanup(c.bb) and c.name == VB + "::maybe_add_file"]
+        R.floor(rule, "maybe_add_file sites in apply_changes", len(adds), 1)
+
+        def named_roots(body, op):
+            return {body.local_name(l) for l in roots(body, op) if body.local_name(l)}
+        # the merge step: on the edge `compare(X, Y) == Less` X is emitted, otherwise Y
+        det = []
+        n_merge = 0
+        for c in comparisons(ac):
+            lo, ro = c.lhs_origins(), c.rhs_origins()
+            cs_ = [o for o in lo if o.kind == "call" and o.name == FM_CMP and o.site is not None]
+            less = any(o.kind == "agg" and (o.name or "").endswith("Ordering::Less") for o in ro)
+            greater = any(o.kind == "agg" and (o.name or "").endswith("Ordering::Greater") for o in ro)
+            if not cs_ or not (less or greater) or c.op not in ("eq", "ne"):
+                continue
+            n_merge += 1
+            site = cs_[0].site
+            x, y = named_roots(ac, site.args[0]), named_roots(ac, site.args[1])
+            first_edges = [(c.bb, t) for t in (c.true_t if c.op == "eq" else c.false_t)]
+            other_edges = [(c.bb, t) for t in (c.false_t if c.op == "eq" else c.true_t)]
+            want_first, want_other = (x, y) if less else (y, x)
+            for a in adds:
+                if a.bb not in ac.reachable(c.bb):
+                    continue
+                fr = named_roots(ac, a.args[3])
+                # the first maybe_add_file reached over each edge, before the next comparison
+                for edges, want, lab in ((first_edges, want_first, "smaller"), (other_edges, want_other, "other")):
+                    for e in edges:
+                        r = ac.reachable(e[1], removed_nodes=[c.bb])
+                        if a.bb in r and ac.must_pass(a.bb, through_edges=[e], start=c.bb) and not (fr & want):
+                            det.append("on the `%s` edge of the merge comparison the emitted file is %s, expected one of %s" % (lab, sorted(fr), sorted(want)))
+        R.check(rule, VB + "::apply_changes|merge-emits-smaller-first", n_merge >= 1 and not det, where(ac),
+                "the merge of base files and added files emits the file that compares smaller first", "; ".join(sorted(set(det))) or "merge comparisons %d" % n_merge)
+        # the lists that are merged were sorted with the smallest-key comparator in (a, b) order
+        sorts = [c for c in ac.calls() if not ac.is_cleanup(c.bb) and (c.name or "").endswith("::sort_by")]
+        oks = bool(sorts)
+        for c in sorts:
+            for cp in ac.closure_of_operand(c.args[1]):
+                cb = P.bodies.get(cp)
+                if cb is None:
+                    continue
+                R.analysed(cb)
+                inner = [x for x in cb.calls() if not cb.is_cleanup(x.bb) and x.name == FM_CMP]
+                if not inner:
+                    oks = False
+                for x in inner:
+                    a0 = {o.name for o in origins(cb, x.args[0]) if o.kind == "param"}
+                    a1 = {o.name for o in origins(cb, x.args[1]) if o.kind == "param"}
+                    if not (a0 and a1 and max(a0) < min(a1)):
+                        oks = False
+        R.check(rule, VB + "::apply_changes|lists-sorted-ascending", oks, where(ac), "both input lists are sorted ascending with the smallest-key comparator", "sort sites %d" % len(sorts))
+    ma = P.body(VB + "::maybe_add_file")
+    if ma is None:
+        R.missing_anchor(rule, VB + "::maybe_add_file")
+    else:
+        R.analysed(ma)
+        pushes = [c for c in ma.calls() if not ma.is_cleanup(c.bb) and c.name == "std::vec::Vec::push" and any(o.kind == "param" and o.name == 4 for o in origins(ma, c.args[1]))]
+        cont = [c for c in ma.calls() if not ma.is_cleanup(c.bb) and (c.name or "").endswith("HashSet::contains") and any("deleted_files" in o.path for o in origins(ma, c.args[0]))]
+        keep = []
+        for c in cont:
+            for t in _bt(ma, c.dest["l"]):
+                keep += [(t.bb, x) for x in t.err]
+        fn_ok = all(any(o.kind == "call" and (o.name or "").endswith("::file_number") for o in origins(ma, c.args[1])) for c in cont)
+        ok = bool(pushes) and bool(cont) and fn_ok and all(ma.must_pass(p_.bb, through_edges=keep) for p_ in pushes)
+        R.check(rule, VB + "::maybe_add_file|deleted-files-are-dropped", ok, where(ma),
+                "a file is appended to the new version only on the edge `deleted_files[level]` does not contain its number", "push sites %d, contains tests %d" % (len(pushes), len(cont)))
+    acc = P.body(VB + "::accumulate_changes")
+    if acc is None:
+        R.missing_anchor(rule, VB + "::accumulate_changes")
+    else:
+        R.analysed(acc)
+        ins_del = [c for c in acc.calls() if not acc.is_cleanup(c.bb) and (c.name or "").endswith("HashSet::insert") and any("deleted_files" in o.path for o in origins(acc, c.args[0]))]
+        ins_add = [c for c in acc.calls() if not acc.is_cleanup(c.bb) and (c.name or "").endswith("::insert") and any("added_files" in o.path for o in origins(acc, c.args[0]))]
+        rm_del = [c for c in acc.calls() if not acc.is_cleanup(c.bb) and (c.name or "").endswith("HashSet::remove") and any("deleted_files" in o.path for o in origins(acc, c.args[0]))]
+        ok = bool(ins_del) and bool(ins_add) and bool(rm_del) and all(in_cycle(acc, c.bb) for c in ins_del + ins_add + rm_del)
+        R.check(rule, VB + "::accumulate_changes|records-deletions-and-additions", ok, where(acc),
+                "every deleted file of the edit is recorded per level; every new file is recorded and un-deleted",
+                "deleted.insert %d, added.insert %d, deleted.remove %d" % (len(ins_del), len(ins_add), len(rm_del)))
+
+
+# ------------------------------------------------------------------------------------------- PAIR-12 (file, level) pairs are written together
+PAIRED_FIELDS = [
+    ("versioning::version::SeekChargeMetadata", "seek_file", "seek_file_level"),
+    ("versioning::version::SeekCompactionMetadata", "file_to_compact", "level_of_file_to_compact"),
+]
+
+
+def pair12_file_level_pairs(P, R, L, rule="PAIR-12"):
+    """A table file is identified to the compaction picker by (file, level): remove_file(level, number) and
+    add_file(level + 1, ..) of a seek-triggered trivial move use the stored level. The two fields of each pair are
+    therefore always written together: every store of one is control-equivalent to a store of the other."""
+    n = 0
+    for adt, fa, fb in PAIRED_FIELDS:
+        for p, b in sorted(P.bodies.items()):
+            sa = [s for s in field_stores(b, fa, adt=adt)]
+            sb = [s for s in field_stores(b, fb, adt=adt)]
+            if not sa and not sb:
+                continue
+            R.analysed(b)
+            n += 1
+            det = []
+
+            def equivalent(x, y):
+                """store blocks x, y: one dominates the other and the later one is unavoidable after the earlier one"""
+                first, second = (x, y) if b.dominates(x, y) else ((y, x) if b.dominates(y, x) else (None, None))
+                if first is None:
+                    return False
+                if first == second:
+                    return True
+                succ = [t for _, t in b.edges(first) if not b.is_cleanup(t)]
+                for s0 in succ:
+                    r = b.reachable(s0, removed_nodes=[second])
+                    if first in r or any(x_ in r for x_ in b.return_blocks()):
+                        return False
+                return True
+            for s in sb:
+                if not any(equivalent(a[0], s[0]) for a in sa):
+                    det.append("the store of %s at line %s has no accompanying store of %s" % (fb, s[2].get("line"), fa))
+            for a in sa:
+                if not any(equivalent(a[0], s[0]) for s in sb):
+                    det.append("the store of %s at line %s has no accompanying store of %s" % (fa, a[2].get("line"), fb))
+            R.check(rule, "%s|%s+%s" % (p, fa, fb), not det, where(b), "%s and %s are always written together" % (fa, fb), "; ".join(det) or "%d + %d stores" % (len(sa), len(sb)))
+    R.floor(rule, "bodies that write a (file, level) pair", n, 3)
